@@ -165,7 +165,7 @@ func (in *Interp) binop(op token.Token, xt, yt types.Type, x, y Value) Value {
 			b := make([]*Term, 0, len(xs.b)+len(ys.b))
 			b = append(b, xs.b...)
 			b = append(b, ys.b...)
-			return Str{b}
+			return Str{b: b}
 		case token.LSS:
 			return in.strLess(xs, ys, false)
 		case token.LEQ:
@@ -314,7 +314,7 @@ func (in *Interp) conv(dst, src types.Type, x Value) Value {
 						if t.w < 8 || !in.branch(tt.Cmp(OpUlt, t, lim)) {
 							in.unsupported("string(symbolic rune >= 0x80)")
 						}
-						return Str{[]*Term{tt.Extract(t, 7, 0)}}
+						return Str{b: []*Term{tt.Extract(t, 7, 0)}}
 					}
 					return concStr(tt, string(rune(t.sval())))
 				}
@@ -325,7 +325,7 @@ func (in *Interp) conv(dst, src types.Type, x Value) Value {
 					if sl.arr == nil {
 						return Str{}
 					}
-					return Str{in.bytesOfSlice(sl)}
+					return Str{b: in.bytesOfSlice(sl)}
 				}
 				if eb != nil && eb.Kind() == types.Int32 {
 					var rs []rune
@@ -603,7 +603,7 @@ func (in *Interp) sliceOp(instr *ssa.Slice, x, lo, hi, max Value) Value {
 		if l < 0 || l > h || h > n {
 			in.targetPanic(fmt.Sprintf("runtime error: slice bounds out of range [%d:%d] with length %d", l, h, n))
 		}
-		return Str{xv.b[l:h]}
+		return Str{b: xv.b[l:h]}
 	case Slice:
 		capT := xv.cap
 		if hiT == nil {
